@@ -27,6 +27,7 @@ def _setup(eng, fr):
 
 
 def register(w):
+    w.always_standin["C10"] = [("pygopherd/handlers/dir.py::DirHandler.prepare", "cache transparency across requests (what one request leaves in the cache file for the next) is a property of histories, not of one call")]
     for cls in DIRS:
         lc = w.contracts[(H + "dir.py::DirHandler.loadcache", cls)]
     lc = w.contracts[(H + "dir.py::DirHandler.loadcache", "DirHandler")]
